@@ -126,6 +126,7 @@ def confirm(mod, case, f):
     got.append(res)
   deaths = []
   pool.run(mod.run_case, [c], on_res, nworkers=2, chunk=1,
+           init=getattr(mod, 'worker_init', None),
            on_death=lambda cs, sk: deaths.append(sk))
   if f.get('kind') == 'process_abort':
     return bool(deaths)
@@ -163,6 +164,7 @@ def run_check(prop, tier, max_seconds=None):
   agg = Aggregator(prop, plan, tier, seed)
   nworkers = plan.get('workers') or env.ncpu()
   st = pool.run(mod.run_case, plan['cases'], agg.on_result, nworkers,
+                init=plan.get('init'),
                 chunk=plan.get('chunk', 8), deadline=deadline,
                 on_death=agg.on_death, serial=plan.get('serial', False))
   if hasattr(mod, 'finish'):
